@@ -792,11 +792,7 @@ PROPOSED_C09 = [
 
 
 def load_findings(chk, prop, proposed):
-    """TEMPORARY fallback until the lead merges the entries into known_findings.json (drop this then)."""
-    if not chk.findings:
-        p = os.path.join(vlib.VERIF, "build", "kf-%s.json" % prop)
-        if os.path.exists(p):
-            chk.findings = [f for f in json.load(open(p)) if f.get("property") == prop]
+    """Ids of the listed known findings of this property (known_findings.json)."""
     return {f["id"] for f in chk.findings if f.get("status") == "known"}
 
 
